@@ -274,6 +274,7 @@ class Arith:
         self.extra_funcs = {}
         self.fresh_n = 0
         self.ratio_mode = False
+        self.factor_shift = None   # offset term k: (s + k) - (t + k) and ite(c, s + k, t + k) are built from s, t (C06 robust pairs)
         self.shadow = False      # carry float64 shadows on concrete values (ShFrac) and report diverging comparisons
         self.pending_divergence = []
         self.real_compare = False
@@ -423,6 +424,11 @@ class Arith:
             if d is True:
                 return val
             return Partial(val, d, what)
+        if self.factor_shift is not None and is_sym(a) and is_sym(b):
+            # ite(c, s + k, t + k) -> ite(c, s, t) + k for the designated offset term k (C06 robust offset pairs)
+            sa, sb = self._strip_shift(a), self._strip_shift(b)
+            if sa is not None and sb is not None:
+                return self.add(self.ite(c, sa, sb), self.factor_shift)
         if isinstance(a, tuple) and isinstance(b, tuple) and len(a) == len(b):
             return tuple(self.ite(c, x, y) for x, y in zip(a, b))
         if isinstance(a, list) and isinstance(b, list) and len(a) == len(b):
@@ -527,10 +533,25 @@ class Arith:
             return a
         if is_sym(a) and is_sym(b) and a.eq(b):
             return 0
+        if self.factor_shift is not None and is_sym(a) and is_sym(b):
+            # (s + k) - (t + k) -> s - t, built the way the unshifted execution builds it
+            sa, sb = self._strip_shift(a), self._strip_shift(b)
+            if sa is not None and sb is not None:
+                return self.sub(sa, sb)
         ta, tb = to_z3(a), to_z3(b)
         if z3.is_int(ta) and z3.is_int(tb):
             return ta - tb
         return to_real(ta) - to_real(tb)
+
+    def _strip_shift(self, t):
+        """t == s + k (k = self.factor_shift as the last summand) -> s ; t == k -> 0 ; else None."""
+        k = self.factor_shift
+        if t.eq(k):
+            return 0
+        if z3.is_app_of(t, z3.Z3_OP_ADD) and t.num_args() >= 2 and t.arg(t.num_args() - 1).eq(k):
+            rest = [t.arg(i) for i in range(t.num_args() - 1)]
+            return rest[0] if len(rest) == 1 else z3.Sum(rest)
+        return None
 
     def neg(self, a):
         a = num_of_bool(a)
